@@ -5,7 +5,7 @@ import core, lib
 from core import call_matches, call_names, op_place, op_local, backward_slice
 
 LEVEL = 'proof'
-FLOOR = 14
+FLOOR = 15      # 70% of the 22 obligation instances derived on the tree the rules were last reviewed against
 EXPLANATION = ('The advisory lock file is taken (fs2 try_lock_exclusive) before any other file of the directory is read, written or deleted; '
                'the locked File is the one stored in DbInner.lock_file; DbInner/Db are constructed only on that path; unlock is called only '
                'at the end of Db::drop_inner after kill_logs; nothing forgets or replaces the lock file.')
